@@ -196,6 +196,7 @@ type vScanResult struct {
 	v, p, x string
 	l       bool
 	lg      syslog.Logger
+	nfields int           // fields the scan offers to the tag processors (their extract handlers see every one of them)
 	lgWant  syslog.Logger // the component's own logger: the one syslog hands out for the component's name
 	c       string
 	frame   vFrameFields
@@ -334,6 +335,7 @@ func vRunShape(shape int, fr vFrameFields, init VScanTagged, cfg *vScanCfg, prov
 	res.taggedV = t
 	res.w, res.v, res.p, res.x, res.l, res.c = t.W, t.V, t.P, t.X, t.L != nil, t.C
 	res.lg = t.L
+	res.nfields = len(hm.Fields)
 	res.lgWant = syslog.Pref(hm.String())
 	res.frame = frame()
 	if second != nil {
@@ -393,6 +395,7 @@ func VerifC11() {
 			}
 		}
 		nd.Assert(got.w == any(provB) && got.v == cfg.k && got.p == cfg.k2 && got.x == cfg.k3 && got.l, "C11: every recognised tag inside embedded structs is processed as on the flat shape")
+		nd.Assert(got.nfields == flat.nfields, "C11: the tag processors are offered the same fields whether they are declared directly or inside embedded structs (a looked-through struct is not itself a field)")
 		nd.Assert(flat.lg == flat.lgWant, "C11: a logger field without a prefix receives its component's logger")
 		nd.Assert(got.lg == got.lgWant, "C11: a logger field receives its component's logger whether it is declared directly or inside embedded structs")
 		nd.Assert(got.c == init.C, "C11: a field with a custom tag is not modified by the container")
